@@ -45,7 +45,7 @@ FLOORS = {"layout_ok": 300, "pair_disjoint": 2000, "readback": 1500,
           "collision_pairs": 500, "last_bit_used": 20}
 SHARDS = {"quick": 16, "thorough": 64}
 CLASSES = ["auto", "auto_full", "explicit", "mixed", "tags", "reuse", "deep",
-           "interleaved", "crossbranch", "fragment"]
+           "interleaved", "crossbranch", "fragment", "reuse_fixed"]
 KF_KEY = "assign-fields-first-fit-fragmentation"
 KF2_KEY = "add-field-cross-level-scope-recursion"
 ANCHORS = [("rig.bitfield", "BitField._assign_field",
@@ -216,6 +216,8 @@ def gen(cls, idx, rng, tier):
     L = rng.choice([16, 32, 32, 64, 64, rng.randint(1, 64), 96, 128])
     if cls == "fragment":
         return gen_fragment(rng)
+    if cls == "reuse_fixed":
+        return gen_reuse_fixed(rng)
     sh = Shadow(L)
     ops = []
     explicit_p = {"auto": 0, "auto_full": 0, "explicit": .7, "mixed": .3,
@@ -345,6 +347,49 @@ def gen(cls, idx, rng, tier):
         ops.append(("layout",))
     for _ in range(rng.randint(2, 6)):
         ops.append(("query", complete()))
+    return dict(L=L, ops=ops)
+
+
+def gen_reuse_fixed(rng):
+    """Sibling scopes re-use a field name at different fixed positions; a
+    field defined afterwards, where the selector is still open, may overlap
+    one of the namesakes, the other, both or neither."""
+    L = rng.choice([16, 32, 32, 64])
+    ops = [("add", {}, "s", 2, L - 2, None),
+           ("add", {}, "t", 1, L - 3, None)]
+    room = L - 3
+    spots = []
+    n_same = rng.randint(2, 3)
+    for v in range(n_same):
+        ln = rng.randint(1, max(1, room // 4))
+        st = rng.randint(0, room - ln)
+        spots.append((st, ln))
+        ops.append(("add", {"s": v}, "n", ln, st, None))
+    if rng.random() < .5:
+        ops.append(("val", {"s": rng.randrange(n_same), "t": 0}))
+    # the newcomer: at the top level or under the other selector
+    scope = rng.choice([{}, {"t": 0}, {"t": 1}])
+    st0, ln0 = rng.choice(spots)
+    mode = rng.choice(["inside", "left", "right", "cover", "clear"])
+    if mode == "inside":
+        ln = rng.randint(1, ln0)
+        st = st0 + rng.randint(0, ln0 - ln)
+    elif mode == "left":
+        ln = rng.randint(1, 4)
+        st = max(0, st0 - ln + 1)
+    elif mode == "right":
+        ln = rng.randint(1, 4)
+        st = min(room - ln, st0 + ln0 - 1)
+    elif mode == "cover":
+        st = max(0, st0 - 1)
+        ln = min(room - st, ln0 + 2)
+    else:
+        ln = rng.randint(1, 3)
+        st = rng.randint(0, room - ln)
+    ops.append(("add", scope, "z", ln, st, None))
+    ops.append(("layout",))
+    for v in range(n_same):
+        ops.append(("query", {"s": v, "t": rng.randrange(2), "n": 0, "z": 0}))
     return dict(L=L, ops=ops)
 
 
